@@ -513,6 +513,88 @@ def o7_server_drop(chk, prog):
     chk.end(ob)
 
 
+SSTATE_NAMES = {0: 'login', 1: 'active', 2: 'tested', 3: 'idle'}
+SERVER_COLS = ('transaction_count', 'query_count', 'bytes_sent', 'bytes_received', 'prepared_hit_count', 'prepared_miss_count', 'prepared_eviction_count', 'prepared_cache_size')
+
+
+@expectation('c18_show_servers')
+def c18_show_servers():
+    """Native: server connections registered in the real registry with given states and counters; SHOW SERVERS through the real handle_admin."""
+    def f(res):
+        for r in res:
+            if 'error' in r or 'panic' in r:
+                return False, 'native: %r' % (r,)
+            if sorted(map(tuple, r.get('rows', []))) != sorted(map(tuple, r.get('want', []))):
+                return True, 'native: SHOW SERVERS lists %r, the registry holds %r' % (r.get('rows'), r.get('want'))
+        return False, 'native: %r' % (res,)
+    return f
+
+
+def o8_show_servers(chk, prog):
+    """SHOW SERVERS as the admin console renders it: every registered server connection once, with its own pool, user, state and counters."""
+    from checks.c07 import mk_addr
+    ob = chk.begin('O8-show-servers', 'admin::handle_admin (real coroutine) on SHOW SERVERS over a registry of two server connections with SYMBOLIC states and distinct pools, users, '
+                   'applications and counters: exactly one DataRow per registered connection, with its pool, user, application, its state in words (login / active / tested / idle as stored) '
+                   'and its own transaction / query / byte / statement-cache counters in the columns named so', {'servers': 2})
+    ha = prog.funcs.get('handle_admin')
+    if ha is None:
+        raise Inconclusive('cannot locate admin::handle_admin')
+    ip = chk.interp(prog, 'O8-show-servers')
+    base = list(ip.overrides)
+    spec = [dict(sid=0x3c, pool='db0', user='u0', app='app0', base=100), dict(sid=0x4d, pool='db1', user='u1', app='app1', base=200)]
+
+    def harness(ip_):
+        ip_.overrides[:] = base
+        smap = MapV('hashmap')
+        sts = []
+        names = prog.src.structs['ServerStats']
+        for i, s in enumerate(spec):
+            st = ip_.fresh(64, 'sstate%d' % i)
+            ip_.assume(z3.ULE(st.v, 3))
+            sts.append(st)
+            a = mk_addr(ip_, prog, i, 1)
+            setf(prog, a, 'Address', 'pool_name', rstring(s['pool']))
+            setf(prog, a, 'Address', 'username', rstring(s['user']))
+            vals = {'server_id': BV(32, s['sid']), 'address': a, 'connect_time': Agg([BV(64, 0)], 'Instant'), 'reporter': Opaque('Reporter', 'reporter'),
+                    'application_name': Ptr(Cell(Agg([rstring(s['app'])], 'Lock'), 'appname')), 'state': Ptr(Cell(Opaque('AtomicServerState', 'sstate', st), 'sstate')),
+                    'error_count': Ptr(Cell(Agg([BV(64, 0)], 'Atomic'), 'a'))}
+            for j, c_ in enumerate(SERVER_COLS):
+                vals[c_] = Ptr(Cell(Agg([BV(64, s['base'] + j)], 'Atomic'), 'a'))
+            missing = [n for n in names if n not in vals]
+            if missing:
+                raise Inconclusive('ServerStats fields %r unknown to the harness' % (missing,))
+            smap.entries.append([BV(32, s['sid']), Cell(Ptr(Cell(Agg([vals[n] for n in names], 'ServerStats', list(names)), 'ss')), 'v')])
+        ip_.overrides[:0] = [(re.compile(r'^(?:stats::|super::)?get_server_stats$'), lambda c: smap),
+                             (re.compile(r'^(?:stats::\w+::)?AtomicServerState::load$'), lambda c, p, order: EnumV(p.data if isinstance(p, Opaque) else deref(c.ip, p).data, {}, 'ServerState')),
+                             (re.compile(r'Instant::now$'), lambda c: Agg([BV(64, 5)], 'Instant')),
+                             (re.compile(r'Instant::duration_since$'), lambda c, a, b: Opaque('Duration', 'd')),
+                             (re.compile(r'Duration::as_secs$'), lambda c, d: BV(64, 5))]
+        q = b'SHOW SERVERS'
+        body = [BV(8, x) for x in b'Q' + (len(q) + 5).to_bytes(4, 'big') + q + b'\0']
+        st_ = StreamV([], 'admin_client')
+        csm = Ptr(Cell(Agg([MapV('hashmap')], 'Lock'), 'csmap'))
+        try:
+            ip_.drive(ip_.call_function(ha, [Ptr(Cell(st_, 'stream')), Seq(body, 'bytesmut'), csm]))
+        except Panic as p:
+            raise Inconclusive('handle_admin panic: ' + p.msg)
+        ob.nontrivial += 1
+        if any(not b.concrete for b in st_.out):
+            raise Inconclusive('SHOW SERVERS reply has symbolic bytes')
+        rows = parse_rows(bytes(b.v for b in st_.out))
+        states = [next(nm for k_, nm in SSTATE_NAMES.items() if decide(ip_, s_.v == k_)) for s_ in sts]
+        # columns: server_id, database_name, user, address_id, application_name, state, transaction_count, query_count, bytes_sent, bytes_received, age_seconds, hit, miss, eviction, size
+        want = [['0x%08X' % s['sid'], s['pool'], s['user'], s['app'], states[i]] + [str(s['base'] + j) for j in range(4)] + [str(s['base'] + j) for j in range(4, 8)] for i, s in enumerate(spec)]
+        got = [r_[:3] + r_[4:10] + r_[11:15] for r_ in rows]
+        if sorted(got) != sorted(want):
+            chk.report(ob, 'C18/O8/show-servers', 'SHOW SERVERS lists %r; the registry holds %r (id, pool, user, application, state, transactions, queries, bytes sent, bytes received, cache hits, misses, evictions, size)' % (got, want),
+                       {'states': states}, {'commands': [{'op': 'show_servers', 'servers': [dict(s, state=states[i]) for i, s in enumerate(spec)], 'want': want}], 'expect': ['c18_show_servers']})
+        if len(ob.samples) < 3:
+            ob.samples.append({'states': states, 'rows': got})
+    ip.explore(harness)
+    chk.absorb(ob, ip)
+    chk.end(ob)
+
+
 def o1_rollup(chk, prog, cpools, spools):
     nclients, nservers = len(cpools), len(spools)
     name = 'O1-rollup-clients%s-servers%s' % (''.join(map(str, cpools)), ''.join(map(str, spools)))
@@ -618,7 +700,7 @@ def main(chk):
         '(O3) a CancelRequest connection -- the real Client::cancel, handle in cancel mode, the drop -- makes no statistics call on the entry of the process id it names. '
         '(O4) bb8\'s connect hook, ServerPool::connect from MIR with Server::startup succeeding or failing: the connection is registered once and handed to bb8 in state idle; '
         'a failed connect leaves nothing registered. (O5) SHOW CLIENTS as the admin console renders it (admin::handle_admin from MIR over a registry of two clients with symbolic states): one row per '
-        'registered client with its own id, pool, user, application, its state in words and its own totals in the columns named so. (O6) SHOW POOLS rows: the column named after a counter carries that counter (PoolStats::generate_header / generate_row from MIR). (O7) <Server as Drop>::drop from MIR with symbolic flags: the entry is removed exactly once whenever the connection object goes away. NOT decided: the rendering of SHOW SERVERS / LISTS, consistency of the global registries under concurrent tasks, '
+        'registered client with its own id, pool, user, application, its state in words and its own totals in the columns named so. (O6) SHOW POOLS rows: the column named after a counter carries that counter (PoolStats::generate_header / generate_row from MIR). (O7) <Server as Drop>::drop from MIR with symbolic flags: the entry is removed exactly once whenever the connection object goes away. (O8) SHOW SERVERS as rendered (handle_admin from MIR, two connections with symbolic states): one row per registered connection, its state in words, its counters in the columns named so. NOT decided: the rendering of SHOW LISTS / STATS, consistency of the global registries under concurrent tasks, '
         'bytes/error totals, and that totals never decrease across pool reloads.')
     chk.assumptions += [
         'one session at a time; the registries themselves (RwLock<HashMap>) and their concurrent readers are not encoded',
@@ -645,6 +727,10 @@ def main(chk):
         o7_server_drop(chk, prog)
     except Inconclusive as e:
         chk.note_inconclusive('O7-server-drop: %s' % e)
+    try:
+        o8_show_servers(chk, prog)
+    except Inconclusive as e:
+        chk.note_inconclusive('O8-show-servers: %s' % e)
     try:
         o3_cancel_conn(chk, prog)
     except Inconclusive as e:
